@@ -71,6 +71,18 @@ pub const CONSTRUCTS: &[(&str, &str)] = &[
     ("$ !> 1 |> $ ?> 2 |> 3", "one-if-false-else-two"),
 ];
 
+/// operands written out in the source (not passed in through `$`), with the truth of the value they denote
+pub const WRITTEN_FORMS: &[(&str, bool)] = &[
+    ("()", false), ("$!", false), ("$?", true), ("0", true), ("2.5", true), ("\"\"", true), ("\"a\"", true), ("''", true), (":k", true), ("1 = 2", true), ("(,)", true), ("1, 2", true),
+    ("1 2", true), ("1 .. 3", true), ("1 <> 2", true), ("{ 5 }", true), ("{ $! }", true), ("{ 1 == 1 }", true), ("{ 1 < 2 }", true), ("{ 1 == 2 }", true), ("1 == 1", true), ("1 == 2", false),
+    ("1 < 2", true), ("2 < 1", false), ("1 != 1", false), ("!! 1", false), ("?? ()", false), ("1 && ()", false), ("() || 1", true), ("5 + 5", true), ("5 / 0", false), ("# 5", true),
+    ("{ 5 } ~~", true), ("{ () } ~~", false), ("5 ~> { $! }", false), ("5 ~> { $ }", true), ("1 ?> ()", false), ("() ?> 1 |> $!", false), ("() !> 2 |> 3", true), ("1 ?> 2 |> ()", true),
+];
+
+fn written_constructs() -> Vec<(&'static str, &'static str)> {
+    CONSTRUCTS.iter().filter(|(_, k)| !matches!(*k, "one-or-self" | "self-or-one")).cloned().collect()
+}
+
 pub const LOGIC: Alphabet = Alphabet {
     leaves: &[("Identifier", "u"), ("Identifier", "v"), ("Identifier", "w"), ("True", "$?"), ("False", "$!")],
     unary: &["Not", "Tis"],
@@ -92,9 +104,11 @@ impl Check for C10Check {
              expected classification: false exactly for unit and $!, `&&`/`||` results are booleans. \
              Phase evaluation-traces: every AST with at most k nodes (k=6 quick, 7 thorough) over identifiers u, v, w, $?, $! and the operators `?>` `!>` `|>` `&&` `||` `^^` `!!` `??`, run under 4 recording hosts (resolving none / u / v,w / all identifiers to numbers; an unresolved identifier is unit, i.e. false): \
              the order and multiplicity of the host's resolve calls and the final value must equal the reference evaluator's (right operands only when the left does not decide, only the selected arm, chain conditions in order, at most one arm). \
-             Non-trivial = a truth-matrix case, or a trace program in which the reference skips at least one identifier; distinct = distinct (program, host / value).",
+             Phase written-operand-forms: {} operand forms written out in the source (literals of every kind, comparisons, logical results, nested expressions whose body is a test, applied expressions, conditionals, lists, ranges) in place of the tested value of every construct above; expected from the statically known truth of the form. \
+             Non-trivial = a truth-matrix or written-operand case, or a trace program in which the reference skips at least one identifier; distinct = distinct (program, host / value).",
             truth_values().len(),
-            CONSTRUCTS.len()
+            CONSTRUCTS.len(),
+            WRITTEN_FORMS.len()
         )
     }
     fn assumptions(&self) -> Vec<String> {
@@ -104,6 +118,7 @@ impl Check for C10Check {
         vec![
             Phase::exhaustive("truth-matrix", (truth_values().len() * CONSTRUCTS.len()) as u64).with_chunk(16),
             Phase::exhaustive("evaluation-traces", LOGIC.count_up_to(tier.pick(6, 7))).with_chunk(1024),
+            Phase::exhaustive("written-operand-forms", (WRITTEN_FORMS.len() * written_constructs().len()) as u64).with_chunk(16),
         ]
     }
     fn run(&self, tier: Tier, phase: usize, input: &Input, ctx: &mut CaseCtx) {
@@ -148,6 +163,40 @@ impl Check for C10Check {
                         }
                         Got::HarnessError(e) => ctx.fail(format!("value-not-buildable:{}:{}", imp.name(), v.type_name()), e),
                         other => ctx.fail(format!("truth-test-failed:{}:{}", construct, v.type_name()), format!("{:?} with $ = {} on {}: {:?}", src, v, imp.name(), other)),
+                    }
+                }
+            }
+            (2, Input::Index(i)) => {
+                // the tested operand is written in the source: what the builder emits for `&&`, `?>` ... depends on the operand's form
+                let cs = written_constructs();
+                let (form, t) = WRITTEN_FORMS[(*i as usize) / cs.len()];
+                let (template, kind) = cs[(*i as usize) % cs.len()];
+                let src = template.split(' ').map(|w| if w == "$" { format!("( {} )", form) } else { w.to_string() }).collect::<Vec<_>>().join(" ");
+                let expected = match kind {
+                    "one-if-true" => V::Int(if t { 1 } else { 0 }),
+                    "one-if-false" => V::Int(if t { 0 } else { 1 }),
+                    "bool" => {
+                        if t { V::True } else { V::False }
+                    }
+                    "not-bool" => {
+                        if t { V::False } else { V::True }
+                    }
+                    "one-if-true-else-three" => V::Int(if t { 1 } else { 3 }),
+                    _ => V::Int(if t { 2 } else { 1 }),
+                };
+                ctx.render(|| format!("{:?} (the written operand is {})", src, if t { "true" } else { "false" }));
+                ctx.class("written-operand");
+                ctx.nontrivial(fnv(src.as_bytes()));
+                let construct = template.split_whitespace().find(|w| *w != "$" && *w != "$?" && *w != "$!" && *w != "1" && *w != "0").unwrap_or(template);
+                for imp in Impl::BOTH {
+                    ctx.sub_evals += 1;
+                    match run_real(imp, &src, None, &V::Unit, 2000) {
+                        Got::Value(g) => {
+                            if !same(&g, &expected) {
+                                ctx.fail(format!("truth-classification-of-written-operand:{}:{}", construct, if t { "treated-as-false-or-not-converted" } else { "treated-as-true-or-not-converted" }), format!("{:?} on {}: expected {} got {}", src, imp.name(), expected, g));
+                            }
+                        }
+                        other => ctx.fail(format!("truth-test-failed:{}:written-operand", construct), format!("{:?} on {}: {:?}", src, imp.name(), other)),
                     }
                 }
             }
